@@ -63,7 +63,10 @@ Definition encode_at (e : ie) (v : value) (buf : list byte) (idx : nat) : outcom
   | DateTimeSeconds => do n <- get_u32 v; put_at buf idx (be 4 n)
   | DateTimeMilliseconds => do n <- get_u64 v; put_at buf idx (be 8 n)
   | DateTimeMicroseconds | DateTimeNanoseconds => Err ErrUnsupported
-  | MacAddress => do m <- get_mac v; copy_at buf idx m
+  | MacAddress =>
+      do m <- get_mac v;
+      if negb (Nat.eqb (length m) (N.to_nat (elem_len e v))) then Err ErrEncode   (* len(v) != element.GetLength() *)
+      else copy_at buf idx m
   | Ipv4Address =>
       do ip <- get_ip v;
       match to4 ip with Some a => copy_at buf idx a | None => Err ErrEncode end
